@@ -9,6 +9,7 @@ import (
 
 	"github.com/VolantMQ/vlapi/mqttp"
 	"github.com/VolantMQ/vlapi/vlsubscriber"
+	persistenceMem "gitlab.com/VolantMQ/vlplugin/persistence/mem"
 
 	"github.com/VolantMQ/volantmq/metrics"
 	"github.com/VolantMQ/volantmq/topics/mem"
@@ -169,6 +170,9 @@ func (p *c13Prop) Run(ci interface{}) interface{} {
 	if c.Kind == "gated" {
 		return p.runGated(c)
 	}
+	if c.Kind == "closerace" {
+		return p.runCloseRace(c)
+	}
 	obs := &c13Obs{}
 	b, err := NewBroker(BrokerOpts{})
 	if err != nil {
@@ -237,6 +241,132 @@ func (p *c13Prop) Run(ci interface{}) interface{} {
 	return obs
 }
 
+// closerace: a durable subscriber S (v5, Receive Maximum 1) holds one unacknowledged QoS 2 message, so the QoS 1
+// messages 1..N of the same publisher and topic wait in its queue. S's connection ends; while the broker hands the
+// queue to persistence (PacketsStore is held open by the harness: a slow backend) the publisher sends N+1..N+K.
+// S reconnects with a large Receive Maximum: the first transmissions of the QoS 1 stream must arrive as 1..N+K.
+func (p *c13Prop) runCloseRace(c *c13Case) interface{} {
+	obs := &c13Obs{}
+	mp, err := persistenceMem.Load(nil, nil)
+	if err != nil {
+		obs.Err = err.Error()
+		return obs
+	}
+	gate := newPersistGate(mp)
+	defer gate.Release()
+	b, err := NewBroker(BrokerOpts{Persist: gate})
+	if err != nil {
+		obs.Err = err.Error()
+		return obs
+	}
+	defer b.Drop()
+	forever := uint32(0xFFFFFFFF)
+	connectS := func(rm int) (*Auto, error) {
+		cl := b.Dial()
+		if _, err := cl.Connect(ConnectOpts{ID: "S", Ver: mqttp.ProtocolV50, Clean: false, Expiry: &forever, RecvMax: uint16(rm)}); err != nil {
+			return nil, err
+		}
+		return cl.Auto(true), nil
+	}
+	s, err := connectS(1)
+	if err != nil {
+		obs.Err = "S: " + err.Error()
+		return obs
+	}
+	_ = s.SendL(mkSubscribe(mqttp.ProtocolV50, 1, []string{"t/#"}, []byte{2}))
+	if !s.WaitFor(5*time.Second, func() bool { return len(s.Others) >= 1 }) {
+		obs.Err = "no suback"
+		return obs
+	}
+	wc := b.Dial()
+	if _, err := wc.Connect(ConnectOpts{ID: "W", Ver: mqttp.ProtocolV311, Clean: true}); err != nil {
+		obs.Err = "W: " + err.Error()
+		return obs
+	}
+	w := wc.Auto(false)
+	_ = w.SendL(mkSubscribe(mqttp.ProtocolV311, 1, []string{"w"}, []byte{0}))
+	if !w.WaitFor(5*time.Second, func() bool { return len(w.Others) >= 1 }) {
+		obs.Err = "W: no suback"
+		return obs
+	}
+	pc := b.Dial()
+	if _, err := pc.Connect(ConnectOpts{ID: "pub0", Ver: mqttp.ProtocolV311, Clean: true}); err != nil {
+		obs.Err = "P: " + err.Error()
+		return obs
+	}
+	pa := pc.Auto(false)
+	wSeen := 0
+	routed := func() bool {
+		// QoS 2 publishes are routed at PUBREL: wait for every handshake, then a sentinel through the same worker
+		pa.WaitFor(5*time.Second, func() bool { return true })
+		_ = pa.SendL(mkPublish(mqttp.ProtocolV311, "w", []byte{1}, 0, false, 0))
+		wSeen++
+		return w.WaitFor(5*time.Second, func() bool { return len(w.Pubs) >= wSeen })
+	}
+	pid := uint16(0)
+	send := func(q, seq int) {
+		pid++
+		_ = pa.SendL(mkPublish(mqttp.ProtocolV311, "t/0", []byte{0, 0, byte(q), byte(seq >> 8), byte(seq)}, byte(q), false, pid))
+	}
+	comps := pa.CountOthers(mqttp.PUBCOMP)
+	send(2, 1)
+	if !pa.WaitFor(5*time.Second, func() bool {
+		n := 0
+		for _, o := range pa.Others {
+			if o.Type() == mqttp.PUBCOMP {
+				n++
+			}
+		}
+		return n > comps
+	}) || !routed() || !s.WaitFor(5*time.Second, func() bool { return len(s.Pubs) >= 1 }) {
+		obs.Err = "the blocking QoS 2 message did not arrive"
+		return obs
+	}
+	n, k := c.N, c.Topics
+	for i := 1; i <= n; i++ {
+		send(1, i)
+	}
+	if !routed() {
+		obs.Err = "routing barrier"
+		return obs
+	}
+	d0 := b.Met.Disconnected()
+	gate.ArmBulk("S")
+	s.Close()
+	entered := gate.WaitEntered(5 * time.Second)
+	for i := n + 1; i <= n+k; i++ {
+		send(1, i)
+	}
+	ok := routed()
+	gate.Release()
+	if !entered || !ok {
+		obs.Err = "close was not processed / routing barrier"
+		return obs
+	}
+	deadline := time.Now().Add(5 * time.Second)
+	for time.Now().Before(deadline) && b.Met.Disconnected() == d0 {
+		time.Sleep(time.Millisecond)
+	}
+	time.Sleep(20 * time.Millisecond)
+	s2, err := connectS(1000)
+	if err != nil {
+		obs.Err = "reconnect: " + err.Error()
+		return obs
+	}
+	obs.Expected = n + k
+	s2.WaitFor(5*time.Second, func() bool { return len(s2.Pubs) >= n+k+1 })
+	s2.mu.Lock()
+	for _, m := range s2.Pubs {
+		pl := m.Payload()
+		if len(pl) == 5 && !m.Dup() && pl[2] == 1 {
+			obs.Arr = append(obs.Arr, [5]int{0, int(pl[0]), int(pl[1]), int(pl[2]), int(pl[3])<<8 | int(pl[4])})
+			obs.Got++
+		}
+	}
+	s2.mu.Unlock()
+	return obs
+}
+
 func (p *c13Prop) Suspect(oi interface{}) bool {
 	o := oi.(*c13Obs)
 	return o.Got < o.Expected
@@ -257,6 +387,9 @@ func (p *c13Prop) Class(ci interface{}, oi interface{}) (string, bool) {
 	c := ci.(*c13Case)
 	if c.Kind == "gated" {
 		return "gated-" + c.Provider, true
+	}
+	if c.Kind == "closerace" {
+		return "closerace", true
 	}
 	return fmt.Sprintf("stream-p%d-t%d-s%d-rm%d", c.Pubs, c.Topics, c.Subs, c.RM), c.N > 1
 }
